@@ -175,6 +175,27 @@ Lemma multi_reader_witness :
 Proof. intro a; split; apply found_witness; [apply read_multi_found | apply read_multi_short_found]. Qed.
 
 (* ---- the repairs ---- *)
+Lemma fixed_all2 :
+  forall async st,
+    (forall c, c <> Accepter -> sreach (sys_tm (fixed_skel FixAll2) c async) st ->
+               strong_tm_inv (sys_tm (fixed_skel FixAll2) c async) st = true) /\
+    (forall c, c <> Accepter -> sreach (sys_1 (fixed_skel FixAll2) c async) st ->
+               strong_one_inv c (sys_1 (fixed_skel FixAll2) c async) st = true) /\
+    (forall c, c <> Accepter -> sreach (sys_extend_n (fixed_skel FixAll2) c 2 async) st ->
+               strong_extend_inv (sys_extend_n (fixed_skel FixAll2) c 2 async) st = true) /\
+    (sreach (sys_n (fixed_skel FixAll2) Reader 2 async) st ->
+     fixed_n_inv (sys_n (fixed_skel FixAll2) Reader 2 async) st = true).
+Proof.
+  intros a st. repeat split.
+  - intros [] Hc H; [| |congruence]; eapply scheck_sound; try eassumption;
+      [apply fixed2_read_tm_checked | apply fixed2_write_tm_checked].
+  - intros [] Hc H; [| |congruence]; eapply scheck_sound; try eassumption;
+      [apply fixed2_read_one_checked | apply fixed2_write_one_checked].
+  - intros [] Hc H; [| |congruence]; eapply scheck_sound; try eassumption;
+      [apply fixed2_read_extend_checked | apply fixed2_write_extend_checked].
+  - intro H; eapply scheck_sound; try eassumption; apply fixed2_read_2_checked.
+Qed.
+
 Lemma fixed_all :
   forall async st,
     (forall c, c <> Accepter -> sreach (sys_tm (fixed_skel FixAll) c async) st ->
